@@ -625,6 +625,9 @@ func c07(tier string) int {
 	run := ev.NewRun("C07", tier, "fault_enumeration")
 	wh.InstallLogicalClock()
 	runFaults(run, "C07", tier, false)
+	// Context leg: the caller gives up before or at any storage call of an
+	// update; whatever the answer, the store must remain usable.
+	ctxLeg(run, "C07")
 	run.Set("exhaustive", true)
 	run.Assumption("injected faults are restricted to effects a real failure can have: a failed Begin/Query/Exec performs nothing; a failed Commit is either rolled back then reported or committed then reported (both enumerated); a failed Rollback/Close still releases the transaction")
 	run.Assumption("'the next operation completes' is decided from driver state (no open transaction / cursor / unclosed write handle) rather than a wall-clock deadline, then confirmed by executing the suffix")
